@@ -111,6 +111,7 @@ pub fn search() -> Option<String> {
         for ft in 0..TEXTS.len() {
             let fp = (i + ft) % w.preds.len();
             for fill in [false, true] {
+                crate::mark(&arg_of(seed, h, ft, fp, fill));
                 if let Some(what) = run(&w, h, TEXTS[ft], fp, fill) {
                     return Some(desc(&arg_of(seed, h, ft, fp, fill), &what[..what.len().min(700)]));
                 }
